@@ -109,9 +109,9 @@ def handleReplace (ws : List String) : String :=
       | some E, some body =>
         let spec : Option String :=
           if kind = "imp" then
-            (E.replaceImported k body).map fun E' => observeWith mA E'.ftab E'.usigs (invoke E' gas) seed rounds
+            (E.replaceImported k body).map fun E' => observeWith mA E'.resolve E'.usigs (invoke E' gas) seed rounds
           else
-            (replaceExported mA E k body).map fun p => observeWith p.1 p.2.ftab p.2.usigs (invoke p.2 gas) seed rounds
+            (replaceExported mA E k body).map fun p => observeWith p.1 p.2.resolve p.2.usigs (invoke p.2 gas) seed rounds
         (match spec with
          | none => "edit-rejected"
          | some os =>
@@ -212,12 +212,23 @@ def handleRenTie (ws : List String) : String :=
               if okSig && okBody && okLoc then none
               else some s!"function {u}: sig={okSig} body={okBody} locals={okLoc}"
             | _, _ => some s!"function {u}: missing"
+          -- the non-code sections: B's must be A's with the function indices renumbered
+          let mA' := mapFM fρ mA
+          let normE := fun (e : ElemM) =>
+            ((match e.mode with
+              | .active t off => (some (t.getD 0), some off)
+              | .passive => (none, none)
+              | .declared => (some 999999, none)), e.items)
+          let cSec := mA'.exports == mB.exports && mA'.start == mB.start && mA'.globals == mB.globals &&
+            mA'.elems.map normE == mB.elems.map normE &&
+            mA'.datas.map (fun d => (d.mode, d.bytes)) == mB.datas.map (fun d => (d.mode, d.bytes))
           if !cFt then "ftab" else if !cTy then "types" else if !cBt then "block-types"
           else if !bad.isEmpty then joinWith "; " bad
+          else if !cSec then "non-code-sections"
           else
             -- the output observed under both uid assignments
             let o1 := observe mB seed rounds gas
-            let o2 := observeWith mB E'.ftab E'.usigs (invoke E' gas) seed rounds
+            let o2 := observeWith mB E'.resolve E'.usigs (invoke E' gas) seed rounds
             if o1 = o2 then "ren-ok" else "uid-assignment-observable: " ++ firstDiff (o1.splitOn "; ") (o2.splitOn "; ") 0
       | _, _, _ => "ill-formed"
     | _, _, _ => "bad-op"
